@@ -10,6 +10,10 @@ import (
 	"errors"
 	"fmt"
 	"io/fs"
+	"net/mail"
+	"os"
+	"os/exec"
+	"path/filepath"
 	"runtime"
 	"sort"
 	"strings"
@@ -80,6 +84,61 @@ func GenC10(verifSeed uint64, run int) *Scenario {
 		delete(subMap(subMap(m, "apk"), "signature"), "key_name")
 		m["maintainer"] = "No Address Here"
 	})})
+	// key kind x key id x signature method/type matrix (fault-free): every
+	// combination the documentation allows, per scenario
+	matrixEnv := map[string]string{"NFPM_PASSPHRASE": KeyPass}
+	if v, ok := w.Env["SOURCE_DATE_EPOCH"]; ok {
+		matrixEnv["SOURCE_DATE_EPOCH"] = v
+	}
+	for k, v := range w.Env {
+		if strings.HasPrefix(k, "VERIF_") {
+			matrixEnv[k] = v
+		}
+	}
+	for _, key := range []string{"pgp_a", "pgp_b", "pgp_c"} {
+		for _, ext := range []string{".asc", ".gpg"} {
+			w.Tree = append(w.Tree, TreeEntry{Path: "keys/m-" + key + ext, Kind: "file", KeyRef: key + ext, Mode: 0o600, MTime: 1500000000})
+			ids := []string{"", keyID(key)}
+			if key == "pgp_c" {
+				ids = append(ids, keyID("pgp_c.sub"))
+			}
+			for _, id := range ids {
+				setSig := func(s map[string]any) {
+					s["key_file"] = "@SRC@keys/m-" + key + ext
+					delete(s, "key_id")
+					if id != "" {
+						s["key_id"] = id
+					}
+				}
+				for _, dv := range [][2]string{{"", ""}, {"", "origin"}, {"", "maint"}, {"", "archive"}, {"dpkg-sig", ""}, {"dpkg-sig", "builder"}} {
+					method, typ := dv[0], dv[1]
+					plan.Cases = append(plan.Cases, Case{Format: "deb", Class: "clean", Key: key, Env: matrixEnv, Config: variant(func(m map[string]any) {
+						s := subMap(subMap(m, "deb"), "signature")
+						setSig(s)
+						delete(s, "method")
+						delete(s, "type")
+						if method != "" {
+							s["method"] = method
+						}
+						if typ != "" {
+							s["type"] = typ
+						}
+					})})
+				}
+				plan.Cases = append(plan.Cases, Case{Format: "rpm", Class: "clean", Key: key, Env: matrixEnv, Config: variant(func(m map[string]any) {
+					setSig(subMap(subMap(m, "rpm"), "signature"))
+				})})
+			}
+		}
+	}
+	for _, rk := range []string{"rsa_a.priv", "rsa_a.pkcs8.priv", "rsa_a.enc.priv"} {
+		w.Tree = append(w.Tree, TreeEntry{Path: "keys/m-" + rk, Kind: "file", KeyRef: rk, Mode: 0o600, MTime: 1500000000})
+		rkk := rk
+		plan.Cases = append(plan.Cases, Case{Format: "apk", Class: "clean", Key: rk, Env: matrixEnv, Config: variant(func(m map[string]any) {
+			subMap(subMap(m, "apk"), "signature")["key_file"] = "@SRC@keys/m-" + rkk
+		})})
+	}
+	plan.Sweep = g.Bool(0.2)
 	return &Scenario{Property: "C10", VerifSeed: verifSeed, Run: run, RunSeed: seed, World: w, C10: plan}
 }
 
@@ -211,6 +270,13 @@ func verifySigned(w *World, cfgText, format string, pkg []byte, calls [][]byte, 
 		} else {
 			verified++
 		}
+		if p, ran := gpgvVerify(strings.Replace(pubPGP, ".asc", ".gpg", 1), signed, last.Data); ran {
+			if p != "" {
+				fail("debsign signature does not verify: %s", p)
+			} else {
+				verified++
+			}
+		}
 		if calls != nil {
 			if len(calls) != 1 {
 				fail("signing callback called %d times, want 1", len(calls))
@@ -241,6 +307,13 @@ func verifySigned(w *World, cfgText, format string, pkg []byte, calls [][]byte, 
 			fail("rpm header+payload signature does not verify over header+payload: %v", err)
 		} else {
 			verified++
+			if p, ran := gpgvVerify(strings.Replace(pubPGP, ".asc", ".gpg", 1), body, bs); ran {
+				if p != "" {
+					fail("rpm header+payload signature does not verify: %s", p)
+				} else {
+					verified++
+				}
+			}
 		}
 		if calls != nil {
 			if len(calls) != 2 {
@@ -266,9 +339,14 @@ func verifySigned(w *World, cfgText, format string, pkg []byte, calls [][]byte, 
 		}
 		wantName := apkKeyNameOf(cfgText)
 		if wantName == "" {
-			wantName = "pkg@verif.invalid.rsa.pub"
-			if strings.Contains(cfgText, "jane@example.org") {
-				wantName = "jane@example.org.rsa.pub"
+			// documented default: <maintainer email>.rsa.pub
+			var m map[string]any
+			yaml.Unmarshal([]byte(cfgText), &m)
+			maint, _ := m["maintainer"].(string)
+			if a, err := mail.ParseAddress(maint); err == nil && a.Address != "" {
+				wantName = a.Address + ".rsa.pub"
+			} else if calls != nil && maint == "" {
+				wantName = "verifcallback.rsa.pub" // the name the harness gives its callback signer
 			}
 		}
 		if es[0].Name != ".SIGN.RSA."+wantName {
@@ -293,6 +371,32 @@ func verifySigned(w *World, cfgText, format string, pkg []byte, calls [][]byte, 
 		}
 	}
 	return
+}
+
+// gpgvVerify checks a detached signature with GnuPG's gpgv, an OpenPGP
+// implementation that shares no code with the one nfpm signs with. Returns
+// ("", false) when gpgv is not installed.
+func gpgvVerify(pubKeyring string, data, sig []byte) (problem string, ran bool) {
+	gpgv, err := exec.LookPath("gpgv")
+	if err != nil {
+		return "", false
+	}
+	dir, err := os.MkdirTemp("/dev/shm", "verif-gpgv-")
+	if err != nil {
+		return "", false
+	}
+	defer os.RemoveAll(dir)
+	df, sf := filepath.Join(dir, "data"), filepath.Join(dir, "data.sig")
+	if os.WriteFile(df, data, 0o600) != nil || os.WriteFile(sf, sig, 0o600) != nil {
+		return "", false
+	}
+	cmd := exec.Command(gpgv, "--ignore-time-conflict", "--keyring", filepath.Join(KeysDir, pubKeyring), sf, df)
+	cmd.Env = []string{"GNUPGHOME=" + dir, "PATH=/usr/bin:/bin", "LC_ALL=C"}
+	out, err := cmd.CombinedOutput()
+	if err != nil {
+		return fmt.Sprintf("gpgv rejects the signature: %v: %s", err, strings.ReplaceAll(strings.TrimSpace(string(out)), "\n", " | ")), true
+	}
+	return "", true
 }
 
 func normText(b []byte) string {
@@ -351,6 +455,13 @@ func RunC10(rt *Runtime, sc *Scenario) RunResult {
 		}
 		ds := debSigOf(cfgText)
 		sig := fmt.Sprintf("%s|%s|%s/%s|%s|%s", c.Format, path, ds.Method, ds.Type, w.KeyName, keyKind(w, c.Format))
+		if c.Key != "" {
+			kf := ""
+			if i := strings.Index(cfgText, "keys/m-"); i >= 0 {
+				kf = strings.Fields(cfgText[i:])[0]
+			}
+			sig = fmt.Sprintf("%s|matrix|%s/%s|%s|keyid=%v", c.Format, ds.Method, ds.Type, kf, strings.Contains(cfgText, "key_id"))
+		}
 		cc := *c
 		if c.Class == "clean" {
 			if !out.Res.OK() {
@@ -369,6 +480,9 @@ func RunC10(rt *Runtime, sc *Scenario) RunResult {
 				continue
 			}
 			pub := w.KeyName + ".pub.asc"
+			if strings.HasPrefix(c.Key, "pgp_") {
+				pub = c.Key + ".pub.asc"
+			}
 			var calls [][]byte
 			if c.Sign == "callback" {
 				pub = "pgp_a.pub.asc"
@@ -438,6 +552,35 @@ func RunC10(rt *Runtime, sc *Scenario) RunResult {
 			}
 		}
 	}
+	// metadata-length sweep: every residue of the control data's length
+	// modulo the format's block size is visited (apk: 512-byte tar blocks;
+	// rpm: 8-byte header alignment; deb: 2-byte ar alignment), signing through
+	// the deterministic callback so that the callback-bytes clause is checked too
+	if plan.Sweep && res.Trouble == "" {
+		for _, sw := range []struct {
+			f string
+			n int
+		}{{"apk", 512}, {"rpm", 16}, {"deb", 4}} {
+			for k := 1; k <= sw.n; k++ {
+				c := Case{Format: sw.f, Sign: "callback", Class: "clean", PadDesc: k}
+				out := rt.ExecCase(w, &c)
+				res.Counters["builds"]++
+				if out.SetupErr != nil || !out.Res.OK() {
+					res.Counters["sweep_build_failed"]++
+					continue
+				}
+				cfgText := padDescription(w.Config, k)
+				problems, verified := verifySigned(w, cfgText, sw.f, out.Res.Bytes, out.Signer.Calls, "pgp_a.pub.asc")
+				res.Counters["signatures_verified"] += int64(verified)
+				res.Counters["probe.sweep_builds."+sw.f]++
+				for _, p := range problems {
+					cc := c
+					violate(Violation{Oracle: "verify", Format: sw.f, Group: problemGroup(p) + "/callback", Case: &cc, Detail: fmt.Sprintf("%s (callback, description lengthened by %d bytes): %s", sw.f, k, p)})
+				}
+			}
+		}
+		distinct["sweep|"+w.KeyName] = true
+	}
 	for k := range distinct {
 		res.Distinct = append(res.Distinct, k)
 	}
@@ -449,7 +592,9 @@ func RunC10(rt *Runtime, sc *Scenario) RunResult {
 
 func problemGroup(p string) string {
 	switch {
-	case strings.Contains(p, "callback"):
+	case strings.Contains(p, "signature entry is") || strings.Contains(p, "signature member is"):
+		return "signature-placement"
+	case strings.Contains(p, "signing callback"):
 		return "callback-bytes"
 	case strings.Contains(p, "does not verify"):
 		return "signature-does-not-verify"
